@@ -4,7 +4,7 @@
 set -e
 cd "$(dirname "$0")/.."
 mkdir -p build out evidence
-for m in MiApi MiApiMC ApiTrace MiOsMC MiPage MiPageGen MiBitmap; do
+for m in MiApi MiApiMC ApiTrace MiOsMC MiPage MiPageGen MiBitmap MiAbandonMC BitmapTrace; do
   (cd spec && tla-sany $m.tla >/dev/null 2>&1) || { echo "spec $m does not parse"; exit 1; }
 done
 python3 - <<'PY'
